@@ -36,7 +36,7 @@ def fixed_probes(d, e):
 
 def run(chk):
     res = vlib.prove(chk, C01.UNITS + ['Clir', 'JitFrame', 'LibWrap'], C01.MODELS + ['theories/ClirSem.vo', 'gen/Clir.vo', 'theories/X86Stk.vo', 'gen/JitFrame.vo', 'gen/LibWrap.vo'], 'C09',
-                     C01.PROOFS + ['theories/ClirProofs.v', 'theories/JitFrameProofs.v', 'theories/LibWrapProofs.v'])
+                     C01.PROOFS + ['theories/ClirProofs.v', 'theories/JitFrameProofs.v', 'theories/LibWrapProofs.v', 'theories/JitEntry.v'])
     found = False
     if res['model_ok']:
         binary = vlib.harness_build('debug')
